@@ -102,11 +102,16 @@ def lock_oracle(seq, line):
             if not reqs:
                 if st not in finals.get(txn, set()):
                     bad.append(f"call {i}: txn {txn} answered {st} without a request, no earlier final status justifies it")
-            elif final(*st):
+            else:
                 consumed = sc[len(reqs) - 1] if len(reqs) <= len(sc) else None
-                view = None if consumed in (None, "nf") else ((consumed[0], 0, consumed[2]) if consumed[0] != 0 else consumed)
-                if st != view:
-                    bad.append(f"call {i}: final status {st} is not the store's last answer {consumed}")
+                if consumed == "nf":
+                    # answered without a status from the store: only "alive with its own TTL" for a live pessimistic lock
+                    if not (pess and ttl > AGE_MS and st == (ttl, 0, 0)):
+                        bad.append(f"call {i}: status {st} made up after TxnNotFound (pessimistic={pess}, lock ttl {ttl})")
+                else:
+                    view = None if consumed is None else ((consumed[0], 0, consumed[2]) if consumed[0] != 0 else consumed)
+                    if st != view:
+                        bad.append(f"call {i}: status {st} is not the store's last answer {consumed}")
             if final(*st):
                 finals.setdefault(txn, set()).add(st)
     return bad
